@@ -1,5 +1,6 @@
 SPECIFICATION Spec
-CONSTANTS N = 3
+CONSTANTS MayCrash = FALSE
+          N = 3
           K1 = "reply"
           K2 = "ack"
           K3 = "ack"
